@@ -567,6 +567,24 @@ def decide_zero(expr, domain_points=None, symbols_domain=None):
     if expr.has(sp.nan, sp.zoo):
         # the source expression divides by an exact zero (e.g. an exponent 1/(t-1) at t = 1): undefined for every input
         return "nonzero", ({}, "undefined: the expression contains a division by an exact zero")
+    # a non-zero value at a point of the domain is a witness whatever the normal form: look for one first (cheap)
+    try:
+        from sympy.core.function import AppliedUndef as _AU
+        e0 = expr
+        apps0 = sorted(e0.atoms(_AU), key=str)
+        if apps0:
+            e0 = e0.subs({a: sp.Symbol(f"app{i}_{a.func.__name__}", positive=True) for i, a in enumerate(apps0)})
+        syms0 = sorted(e0.free_symbols, key=lambda s_: s_.name)
+        for pt in (domain_points or default_points(syms0, symbols_domain))[:2]:
+            with time_limit(10):
+                val = sp.N(e0.subs(pt), 50)
+            if val.is_number and not val.has(sp.nan, sp.zoo, sp.oo):
+                mag = abs(complex(val))
+                scale = 1 + max([abs(complex(sp.N(t.subs(pt), 30))) for t in sp.Add.make_args(e0)] or [1])
+                if mag > 1e-25 * scale:
+                    return "nonzero", ({str(k): str(v) for k, v in pt.items()}, str(sp.N(val, 8)))
+    except Exception:
+        pass
     gen = normalise(expr)
     for _ in range(4):
         try:
